@@ -95,6 +95,10 @@ def asm_programs():
     P.append(('svc-exit-after-write', _HDR % 68 + 'LDAC 1\nOPR SVC\nLDAC 0\nOPR SVC\n', [b'']))
     P.append(('svc-read-write-interleaved', _HDR % 69 + 'LDAC 2\nOPR SVC\nLDAC 1\nOPR SVC\nOPR SVC\nLDAC 2\nOPR SVC\nOPR SVC\nLDAC 0\nOPR SVC\n', [b'abc', b'']))
 
+    # a symbol table after the image (PROC/FUNC) and a read of the word just after the image: outside the quantifier (the word
+    # was never written) -- hexsim reads 0 there, the testbench whatever its memory holds; run and reported, not judged
+    P.append(('symtab-read-past-image', 'BR start\nDATA 1\nDATA 0\nDATA 72\nDATA 0\nPROC start\nLDAC last\nLDAI 1\nSTAM 3\nLDAC 1\nOPR SVC\nLDAC 0\nOPR SVC\nlast\nDATA 0\n', [b'']))
+
     def wide(tests):
         """each test: (setup lines leaving a value in areg, 'BRN' or 'BRZ'): prints T when the branch is taken, F otherwise"""
         src = _HDR % 70
@@ -109,6 +113,32 @@ def asm_programs():
     # the wide value itself reaches the output: printed byte = bits 24..31 through repeated doubling is not available; use the exit word
     P.append(('wide-ldac-exit', _HDR % 71 + 'LDAC 19088743\nLDBC 19088640\nOPR SUB\nSTAM 3\nLDAC 0\nOPR SVC\n', [b'']))
     return P
+
+
+# --------------------------------------------------------------------------- files that exercise the loaders (hextb.cpp load() vs hexsim's load())
+def loader_files(d, hexasm):
+    """[(name, path, console input)] written into directory d:
+    an image larger than the architecture's memory (200000 words; produced by the real hexasm, it exits 7), one larger than the
+    RTL memory array (2^19 words), a header announcing more words than the file holds, a 2-byte file, a missing file, and an
+    empty image -- on each hextb and hexsim must agree (both reject the file, or both run it the same way)"""
+    out = []
+    src = 'BR start\nDATA 1\nDATA 0\nDATA 7\nstart\nLDAC 0\nOPR SVC\n' + 'DATA 5\n' * 200000
+    open(os.path.join(d, 'oversize.S'), 'w').write(src)
+    if hexasm:
+        rc, _ = vlib.sh('%s oversize.S -o oversize.bin' % hexasm, cwd=d, timeout=300)
+        if rc == 0 and os.path.exists(os.path.join(d, 'oversize.bin')):
+            out.append(('loader/oversize-200006-words(hexasm)', os.path.join(d, 'oversize.bin'), b''))
+    n = (1 << 19) + 16
+    open(os.path.join(d, 'huge.bin'), 'wb').write(n.to_bytes(4, 'little') + _w(0x30, 0xD3, 0, 0).to_bytes(4, 'little') + (1).to_bytes(4, 'little') + b'\x00' * 4 * (n - 2))
+    out.append(('loader/oversize-2^19+16-words', os.path.join(d, 'huge.bin'), b''))
+    # header says 12 words, the file holds 5: LDAC 0; OPR SVC -> exit(mem[mem[1]+2]) = exit 9
+    open(os.path.join(d, 'short.bin'), 'wb').write((12).to_bytes(4, 'little') + b''.join(w.to_bytes(4, 'little') for w in [_w(0x30, 0xD3, 0, 0), 1, 0, 9, 0]))
+    out.append(('loader/header-larger-than-file', os.path.join(d, 'short.bin'), b''))
+    open(os.path.join(d, 'two.bin'), 'wb').write(b'\x01\x00')
+    out.append(('loader/two-byte-file', os.path.join(d, 'two.bin'), b''))
+    out.append(('loader/missing-file', os.path.join(d, 'does-not-exist.bin'), b''))
+    open(os.path.join(d, 'empty.bin'), 'wb').write((0).to_bytes(4, 'little'))
+    return out
 
 
 if __name__ == '__main__':
